@@ -268,3 +268,16 @@ def sstruct_roundtrip():
     ob('field-w', eq(out['w'], rec['w']))
     data2 = SS.pack(_FMT, out)
     ob('repack-identical', eq(tobytes(data2), tobytes(data)))
+
+
+@kernel('C15', funcs=['misc/psCharStrings.py:encodeFixed', 'misc/psCharStrings.py:read_fixed1616', 'misc/psCharStrings.py:read_operator'],
+        bounds='ALL real x in [-30000, 30000] (not only 16.16 values): the Type 2 operand written by encodeFixed decodes to a value within 2^-17 of x (the nearest '
+               '16.16 number), also when that nearest value is an integer and the short integer form is chosen',
+        shims=['struct', 'int/round'], quick=[dict()])
+def t2_fixed_nearest():
+    x = V.real('x', -30000, 30000)
+    data = PS.encodeFixed(x)
+    observe('encoded', tobytes(data))
+    d = tobytes(data)
+    val, _ = _decode_operand(PS.t2OperandEncoding, d)
+    ob('within-half-ulp', conj([le(val - x, 1 / 131072), le(x - val, 1 / 131072)]))
